@@ -3,13 +3,15 @@
 (* every limit 0..MaxK and both size functions: no step evaluates an empty or reversed window (the code would panic on   *)
 (* the slice), what has been emitted is at every moment a prefix of the maximal fitting windows in order of their start, *)
 (* at the end it is all of them, and the machine ends.  Run-length coding: Rle is the one encoding with IsRleOf.         *)
+(* Fs = the size functions; with the non-monotone "last" the emitted windows are no longer the maximal ones (negative   *)
+(* control: the meaning of the finder rests on the monotonicity of what the library passes in).                         *)
 EXTENDS KWindows, TLC
-CONSTANTS MaxLen, MaxW, MaxK
+CONSTANTS MaxLen, MaxW, MaxK, Fs
 VARIABLES v, k, f, st
 vars == <<v, k, f, st>>
 Init == /\ v \in UNION {[1..n -> 0..MaxW] : n \in 0..MaxLen}
         /\ k \in 0..MaxK
-        /\ f \in {"sum", "padded"}
+        /\ f \in Fs
         /\ st = M0
 Next == st.pc # "done" /\ st' = Step(v, k, f, st) /\ UNCHANGED <<v, k, f>>
 Spec == Init /\ [][Next]_vars /\ WF_vars(Next)
